@@ -7,6 +7,7 @@ mod workers;
 mod small;
 mod probe;
 mod sys;
+mod mtree;
 
 use std::collections::HashMap;
 
@@ -53,6 +54,8 @@ fn main() {
         "workers-scenario" => workers::cmd_scenario(&args),
         "workers-live" => workers::cmd_live(&args),
         "probe" => probe::cmd_probe(&args),
+        "mtree-replay" => mtree::cmd_replay(&args),
+        "mtree-scenario" => mtree::cmd_scenario(&args),
         "pdb-record" => record::cmd_record(&args),
         "pdb-record-mt" => record::cmd_record_mt(&args),
         other => {
